@@ -690,10 +690,15 @@ func (self *Node) removeMetadata() {
 
 func (self *Node) getFork(index string) *Fork {
 	i, err := strconv.Atoi(index)
-	if err == nil && i >= 0 && i < len(self.forks) {
-		return self.forks[i]
-	}
 	l := len(self.call.GetFqid()) + 5
+	if err == nil && i >= 0 && i < len(self.forks) {
+		// Forks created at runtime are appended in the order in which they
+		// are discovered, which for nested map calls is not necessarily the
+		// order of their IDs, so only trust the position if the name agrees.
+		if f := self.forks[i]; len(f.fqname) <= l || f.fqname[l:] == index {
+			return f
+		}
+	}
 	for _, f := range self.forks {
 		if len(f.fqname) > l && f.fqname[l:] == index {
 			return f
